@@ -10,9 +10,12 @@ Deductive part (pyvc over the real ASTs; object vocabulary shared with contracts
   * InterpolatableTTFCompiler.compileOutlines: the outline compiler is built with roundCoordinates=False and
     dropImpliedOnCurves=False whatever the compiler's own fields say, glyphDataFormat from allQuadratic, sparse tables iff a
     layer name is given
-Out of the engine's reach (see notes/C09.md), checked by vcheck/hooks/c09.py on generated inputs:
-  TTFInterpolatablePreProcessor.process, check_for_nonmatching_components, FlattenComponentsIFilter.filter,
-  Instantiator.replace_source_layers, and the end-to-end point-compatibility observer.
+Second wave: check_for_nonmatching_components (iff-specification of the 2x2 comparison), replace_source_layers / _update_instantiator /
+_run_interpolatable (the instantiator interpolates from the edited glyph sets, never from a stale model), BaseIFilter.__call__ on the decompose filter
+(post-state: the same decision and action per glyph name in EVERY master), TTFInterpolatablePreProcessor.process (order of the steps, the decompose set,
+cu2qu on all glyph sets at once).
+Still checked by vcheck/hooks/c09.py on generated inputs only: FlattenComponentsIFilter.filter, BaseInterpolatablePreProcessor.__init__, and the end-to-end
+point-compatibility observer (cu2qu itself is library code).
 """
 import z3
 
